@@ -56,6 +56,12 @@ impl ToPy for Name {
     #[verifier::external_body]
     fn to_py(&self, imp: &mut Imports) -> (r: Core) ensures forall|m: Seq<char>, n: Seq<char>| imp_has_from(*old(imp), m, n) ==> imp_has_from(*final(imp), m, n) { unimplemented!() }
 }
+impl ToPy for StringName {
+    #[verifier::external_body]
+    fn to_py(&self, imp: &mut Imports) -> (r: Core) ensures r == sn_to_py(*self), forall|m: Seq<char>, n: Seq<char>| imp_has_from(*old(imp), m, n) ==> imp_has_from(*final(imp), m, n) { unimplemented!() }
+}
+/// the Python spelling of a (function / class) name; A-EXT: a function of the name alone
+pub uninterp spec fn sn_to_py(n: StringName) -> Core;
 impl ToPy for ASTTy {
     #[verifier::external_body]
     fn to_py(&self, imp: &mut Imports) -> (r: Core) ensures forall|m: Seq<char>, n: Seq<char>| imp_has_from(*old(imp), m, n) ==> imp_has_from(*final(imp), m, n) { unimplemented!() }
@@ -335,6 +341,64 @@ pub open spec fn cf_post(ast: ASTTy, state: State, ctx: Context, c: Core) -> boo
 //@@> invariant cases@.len() <= it.index@, forall|m: Seq<char>, n: Seq<char>| imp_has_from(*old(imp), m, n) ==> imp_has_from(*imp, m, n), (forall|i: int| 0 <= i < it.index@ ==> well_formed_case(#[trigger] match_cases@[i])) ==> cases@.len() == it.index@ && forall|i: int| 0 <= i < it.index@ ==> case_image(#[trigger] match_cases@[i], *state, *ctx, cases@[i]),
     ensures
         r matches Ok(c) ==> cf_post(*ast, *state, *ctx, c),                      //# branches_converted_in_callers_state [C01]
+        forall|m: Seq<char>, n: Seq<char>| imp_has_from(*old(imp), m, n) ==> imp_has_from(*final(imp), m, n),   //# imports_only_grow [C16]
+//@@ END
+
+// ---- calls and comprehensions (C01: receiver, callee and arguments keep their places; C03: no failing expect) ----------
+pub open spec fn call_post(ast: ASTTy, state: State, ctx: Context, c: Core) -> bool {
+    match ast.node {
+        NodeTy::PropertyCall { instance, property } =>
+            c matches Core::PropertyCall { object, property: p2 }
+            && Some(*object) == conv(*instance, state, ctx) && Some(*p2) == conv(*property, state, ctx),
+        NodeTy::FunctionCall { name, args } =>
+            c matches Core::FunctionCall { function, args: a2 }
+            && *function == sn_to_py(name) && Some(a2@) == convvec(args@, state, ctx),
+        _ => true,
+    }
+}
+
+//@@ FN src/generate/convert/call.rs | free | convert_call
+    ensures
+        r matches Ok(c) ==> call_post(*ast, *state, *ctx, c),                    //# call_keeps_receiver_callee_and_argument_order [C01]
+        forall|m: Seq<char>, n: Seq<char>| imp_has_from(*old(imp), m, n) ==> imp_has_from(*final(imp), m, n),   //# imports_only_grow [C16]
+//@@ END
+
+/// outline of `conditions.strip_prefix(&[col.clone()])` where `col` is `conditions.first()`:
+/// A-STD: stripping the slice's own first element always succeeds and leaves the tail
+#[verifier::external_body]
+pub fn verif_outline_strip_first<'a>(conditions: &'a Vec<ASTTy>, col: &ASTTy) -> (r: Option<&'a [ASTTy]>)
+    requires conditions@.len() >= 1, *col == conditions@[0],
+    ensures r matches Some(t) && t@ == conditions@.subrange(1, conditions@.len() as int),
+{ unimplemented!() }
+
+pub open spec fn compr_parts(conditions: Seq<ASTTy>, state: State, ctx: Context, col: Core, conds: Seq<Core>) -> bool {
+    conditions.len() >= 1 && Some(col) == conv(conditions[0], state, ctx)
+    && Some(conds) == convvec(conditions.subrange(1, conditions.len() as int), state, ctx)
+}
+pub open spec fn builder_post(ast: ASTTy, state: State, ctx: Context, c: Core) -> bool {
+    match ast.node {
+        NodeTy::DictBuilder { from, to, conditions } =>
+            c matches Core::DictComprehension { from: f2, to: t2, col, conds }
+            && Some(*f2) == conv(*from, state, ctx) && Some(*t2) == conv(*to, state, ctx)
+            && compr_parts(conditions@, state, ctx, *col, conds@),
+        NodeTy::ListBuilder { item, conditions } =>
+            c matches Core::List { elements } && elements@.len() == 1
+            && (elements@[0] matches Core::Comprehension { expr, col, conds }
+                && Some(*expr) == conv(*item, state, ctx) && compr_parts(conditions@, state, ctx, *col, conds@)),
+        NodeTy::SetBuilder { item, conditions } =>
+            c matches Core::Set { elements } && elements@.len() == 1
+            && (elements@[0] matches Core::Comprehension { expr, col, conds }
+                && Some(*expr) == conv(*item, state, ctx) && compr_parts(conditions@, state, ctx, *col, conds@)),
+        _ => true,
+    }
+}
+
+//@@ FN src/generate/convert/builder.rs | free | convert_builder
+//@@ OUTLINE count=3
+//@@< conditions .strip_prefix(&[col.clone()])
+//@@> verif_outline_strip_first(conditions, col)
+    ensures
+        r matches Ok(c) ==> builder_post(*ast, *state, *ctx, c),                 //# comprehension_keeps_item_generator_and_conditions [C01]
         forall|m: Seq<char>, n: Seq<char>| imp_has_from(*old(imp), m, n) ==> imp_has_from(*final(imp), m, n),   //# imports_only_grow [C16]
 //@@ END
 
